@@ -245,6 +245,13 @@ func worldTunnel(w *World) {
 		pcfgs = append(pcfgs, pc)
 		tw.proxies = append(tw.proxies, p)
 	}
+	// one more proxy whose backend is down (nothing listens there): its users are turned away - and whatever the
+	// client does on that path must not touch the tunnels of the proxies that work
+	deadBackend := w.KnobBool("proxy_with_dead_backend", 30)
+	if deadBackend {
+		pcfgs = append(pcfgs, map[string]any{"name": "pxdead", "type": "tcp", "localIP": "127.0.0.1", "localPort": 9999, "remotePort": 20090,
+			"transport": map[string]any{"useCompression": w.KnobBool("dead.comp", 70), "useEncryption": w.KnobBool("dead.enc", 30)}})
+	}
 
 	srvPort := 7000
 	if proto == "quic" {
@@ -341,6 +348,32 @@ func worldTunnel(w *World) {
 		return
 	}
 	w.Sleep(time.Duration(r.Range(0, 1500)) * time.Millisecond)
+	if deadBackend && w.WaitUntil(30*time.Second, 100*time.Millisecond, func() bool { return tw.listening("10.0.0.1:20090") && w.FrpLogContains("[pxdead] start proxy success") }) {
+		w.Probe("tunnel.users_of_dead_backend")
+		nd := w.KnobPick("dead.users", 1, 3, 6)
+		var dwg sync.WaitGroup
+		for i := 0; i < nd; i++ {
+			i := i
+			dwg.Add(1)
+			w.UserN.Go(func() {
+				defer dwg.Done()
+				c, err := simnet.DialFrom(fmt.Sprintf("10.0.3.%d", 150+i), "10.0.0.1:20090", 10*time.Second)
+				if err != nil {
+					return
+				}
+				defer c.Close()
+				c.Write([]byte("anybody there?"))
+				c.SetReadDeadline(time.Now().Add(60 * time.Second))
+				buf := make([]byte, 64)
+				if n, err := c.Read(buf); n > 0 {
+					tw.violate("wiring", "bytes-from-nowhere", "a user of a proxy whose backend is down received %d bytes (%q)", n, buf[:n])
+				} else if ne, ok := err.(net.Error); ok && ne.Timeout() {
+					tw.violate("close", "user-of-dead-backend-left-open", "a user of a proxy whose backend is down was neither served nor closed within 60 s")
+				}
+			})
+		}
+		dwg.Wait()
+	}
 
 	// fault batch: connection resets, blackholes and partitions between the clients and the server while traffic
 	// flows. Completeness and timing oracles are off in this batch; what every endpoint reads must still be a prefix
